@@ -72,9 +72,12 @@ type Profile struct {
 	// Quick and Thorough are the number of runs of each tier (per seed).
 	Quick, Thorough int
 	ThoroughSeeds   int
-	Rule            string
-	Real, Stub      []string
-	Faults          []string
+	// RaceQuick / RaceThorough: additional runs executed by the race-detector build
+	// (Mode B: kernel synchronisation hidden from the detector)
+	RaceQuick, RaceThorough int
+	Rule                    string
+	Real, Stub              []string
+	Faults                  []string
 }
 
 var Profiles = map[string]*Profile{}
